@@ -285,6 +285,11 @@ func TestCheck(t *testing.T) {
 		r.Watchdog(60 * time.Second)
 	}
 	var sc scenario
+	var sq seqT
+	if mon.ReplayCase(&sq) && sq.Seq {
+		judgeSeq(r, t, sq)
+		return
+	}
 	if mon.ReplayCase(&sc) {
 		judge(r, t, sc)
 		return
@@ -295,6 +300,13 @@ func TestCheck(t *testing.T) {
 			judge(r, t, sc)
 		}
 	}
+	sg := seqGrid(r.Quick())
+	for i, sq := range sg {
+		if r.Mine(i) {
+			judgeSeq(r, t, sq)
+		}
+	}
+	r.Set("sequence_grid_size", len(sg))
 	r.Set("grid_size", len(g))
 	r.Set("exhaustive", true)
 }
